@@ -305,6 +305,16 @@ def run(ctx):
     ctx.import_rule("C17", "R17.4", "R19.6", "rdump --split -w avro://: on the limit the FULL part is flushed and closed before the next one is opened (a flush of the fresh part writes an empty container header that the next write trips over)",
                     constructs=["SplitWriter.write"])
 
+    # ------------------------------------------------------------------ R19.5 "no descriptor yet" is not "a descriptor without fields"
+    ctx.rule("R19.5", "AvroWriter.write opens the container when `not self.desc`: RecordDescriptor therefore defines neither __len__ nor __bool__ (a descriptor with no declared "
+                      "fields would be falsy, the writer would start a new container for every record and its mixed-type guard would never fire)")
+    rdc5 = prog.cls("flow.record.base.RecordDescriptor")
+    truthy = [n for n in ("__len__", "__bool__") if n in prog.methods_of(rdc5)]
+    aw5 = ctx.anchor_func("flow.record.adapter.avro.AvroWriter.write")
+    tests5 = [t for t in ast.walk(aw5) if isinstance(t, (ast.If, ast.IfExp)) and norm(t.test) in ("not self.desc", "self.desc")]
+    ctx.check(not truthy or not tests5, "R19.5", "RecordDescriptor:truthiness", f"RecordDescriptor defines {truthy} while AvroWriter.write tests the truth of self.desc", rdc5,
+              "descriptors are always truthy (no __len__/__bool__), or the writer tests `is None`", key="R19.5:RecordDescriptor:falsy-descriptor")
+
 
 
 def _calls_float_epoch(prog, module, node) -> bool:
